@@ -17,4 +17,5 @@ var Registry = map[string]func(args []string){
 	"ramfs":    RamEngine,
 	"ramconc":  RamConc,
 	"ufs":      UfsEngine,
+	"stack":    Stack,
 }
